@@ -1,3 +1,108 @@
 package main
 
-func runSelftest(args []string) int { return 0 }
+import (
+	"fmt"
+	"os"
+	"sort"
+	"strings"
+	"time"
+)
+
+// selftest: programs with known verdicts (harness/zzverif/selftest) run
+// through the same load / execute / solver path as the property checks.
+
+type stCase struct {
+	fn      string
+	want    []string // exact set of reported labels (empty: must hold)
+	covers  []string
+	lockset bool
+	params  map[string]int
+}
+
+var stCases = []stCase{
+	{fn: "ST_wraparound", want: []string{"ST/no-wrap"}},
+	{fn: "ST_bits_hold", covers: []string{"big", "small"}},
+	{fn: "ST_decimal_roundtrip"},
+	{fn: "ST_string_eq", want: []string{"ST/not-always"}},
+	{fn: "ST_map_slice", want: []string{"ST/len"}},
+	{fn: "ST_nil_map_panics", want: []string{"no-panic"}},
+	{fn: "ST_self_deadlock", want: []string{"self-deadlock"}},
+	{fn: "ST_lock_leak", want: []string{"locks-held-at-exit"}},
+	{fn: "ST_recursive_rlock", want: []string{"recursive-read-lock"}},
+	{fn: "ST_race", want: []string{"data-race"}},
+	{fn: "ST_no_race_with_lock", covers: []string{"joined"}},
+	{fn: "ST_lost_update", want: []string{"ST/lost-update"}},
+	{fn: "ST_abba_deadlock", want: []string{"deadlock"}},
+	{fn: "ST_missing_done", want: []string{"deadlock"}},
+	{fn: "ST_goroutine_panic", want: []string{"no-panic"}},
+	{fn: "ST_pump_ok", covers: []string{"a-closes", "b-closes", "both-close"}},
+	{fn: "ST_pump_leak", want: []string{"ST/pump/a-leg-closed", "deadlock"}},
+}
+
+func runSelftest(args []string) int {
+	t0 := time.Now()
+	eng := loadEngine([]string{"zzverif/selftest"})
+	sp := eng.pkgs[pikoMod+"/zzverif/selftest"]
+	if sp == nil {
+		fmt.Fprintln(os.Stderr, "selftest: package not loaded")
+		return 2
+	}
+	failed := 0
+	for _, c := range stCases {
+		entry := sp.Func(c.fn)
+		if entry == nil {
+			fmt.Fprintf(os.Stderr, "selftest FAIL %s: not found\n", c.fn)
+			failed++
+			continue
+		}
+		eng.unwind = 64
+		eng.maxPaths = 200000
+		eng.lockset = nil
+		if c.lockset {
+			eng.lockset = newLockset()
+		}
+		params := c.params
+		if params == nil {
+			params = map[string]int{}
+		}
+		run := &HarnessRun{eng: eng, prop: "SELFTEST", name: c.fn, pkg: "zzverif/selftest", entry: entry, params: params}
+		run.execute(8)
+		got := map[string]bool{}
+		for _, v := range run.violations {
+			got[v.Label] = true
+		}
+		var gotL []string
+		for l := range got {
+			gotL = append(gotL, l)
+		}
+		sort.Strings(gotL)
+		want := append([]string(nil), c.want...)
+		sort.Strings(want)
+		problems := []string{}
+		if strings.Join(gotL, ",") != strings.Join(want, ",") {
+			problems = append(problems, fmt.Sprintf("labels %v, want %v", gotL, want))
+		}
+		if run.fatal != "" {
+			problems = append(problems, "fatal: "+run.fatal)
+		}
+		if len(run.undecided) > 0 {
+			problems = append(problems, "undecided: "+run.undecided[0])
+		}
+		for _, cv := range c.covers {
+			if run.covers[cv] == 0 {
+				problems = append(problems, "cover "+cv+" not reached")
+			}
+		}
+		if len(problems) > 0 {
+			failed++
+			fmt.Fprintf(os.Stderr, "selftest FAIL %s: %s\n", c.fn, strings.Join(problems, "; "))
+		} else {
+			fmt.Fprintf(os.Stderr, "selftest ok   %s (%d paths)\n", c.fn, run.paths)
+		}
+	}
+	fmt.Fprintf(os.Stderr, "selftest: %d cases, %d failed, %.1fs\n", len(stCases), failed, time.Since(t0).Seconds())
+	if failed > 0 {
+		return 1
+	}
+	return 0
+}
